@@ -27,6 +27,7 @@ HOSTS = [
     ("digit-final", "host1", "host1"),
     ("pct", "a%20b1", None),
     ("idn", "bücher.example", "bücher.example"),
+    ("alabel-upper", "XN--MNCHEN-3YA.DE", "XN--MNCHEN-3YA.DE"),
     ("ipv4", "127.0.0.1", "127.0.0.1"),
     ("ipv6", "[2001:DB8::1]", "2001:DB8::1"),
     ("ipv6zone", "[fe80::1%eth0]", "fe80::1%eth0"),
